@@ -263,6 +263,15 @@ struct LifetimeRegistry {
     snapshots.clear();
   }
 
+  // nodes known to the registry whose memory is still allocated and that are not yet destroyed (pending reclamation)
+  uint64_t undestroyed_nodes() const {
+    uint64_t n = carried.size();
+    for (auto& r : recs)
+      if (r.dtor_count == 0)
+        ++n;
+    return n;
+  }
+
   // census at the quiescent end (after the flush): every retired node destroyed exactly once
   bool census_complete() const {
     for (auto& r : recs)
